@@ -873,7 +873,7 @@ static size_t real_capacity(int kind, cbor_item_t* c) {
   size_t b = ta_block_size(tab);
   return b == (size_t)-1 ? b : b / (kind == K_IMAP ? sizeof(struct cbor_pair) : sizeof(cbor_item_t*));
 }
-/* `via`: 0 = a fresh container; 1 = the container is first filled with n0 members, copied with cbor_copy, and the COPY is
+/* `via`: 0 = a fresh container; 3 = a fresh indefinite array filled through cbor_array_set at index == size; 1 = the container is first filled with n0 members, copied with cbor_copy, and the COPY is
  * extended; 2 = likewise but serialized and loaded back, and the LOADED tree is extended (a table sized by someone else) */
 static void c12_growth_via(int kind, size_t n, int via, size_t n0);
 static void c12_growth(int kind, size_t n) { c12_growth_via(kind, n, 0, 0); }
@@ -886,7 +886,7 @@ static void c12_growth_via(int kind, size_t n, int via, size_t n0) {
   cbor_item_t* c = r_new(kind, 0);
   cbor_item_t* x = r_new(kind == K_IBS ? K_BSTR : kind == K_ITS ? K_TSTR : K_INT, 0);
   size_t base_rc = 0;
-  if (via) {
+  if (via == 1 || via == 2) {
     for (size_t i = 0; i < n0; i++) {
       bool ok = kind == K_IARR ? cbor_array_push(c, x) : kind == K_IMAP ? cbor_map_add(c, (struct cbor_pair){.key = x, .value = x}) : kind == K_IBS ? cbor_bytestring_add_chunk(c, x) : cbor_string_add_chunk(c, x);
       if (!ok) vh_die("c12_growth_via: prefill failed");
@@ -906,13 +906,13 @@ static void c12_growth_via(int kind, size_t n, int via, size_t n0) {
   }
   ta_reset_stats();
   size_t prev_cap = 0, done = 0;
-  if (via) { prev_cap = kind == K_IARR ? cbor_array_allocated(c) : kind == K_IMAP ? cbor_map_allocated(c) : ((struct cbor_indefinite_string_data*)c->data)->chunk_capacity;
+  if (via == 1 || via == 2) { prev_cap = kind == K_IARR ? cbor_array_allocated(c) : kind == K_IMAP ? cbor_map_allocated(c) : ((struct cbor_indefinite_string_data*)c->data)->chunk_capacity;
              size_t rc0 = real_capacity(kind, c);
              if (rc0 != (size_t)-1 && prev_cap > rc0) vh_violation("capacity-exceeds-block", "the %s of a %s with %zu members reports capacity %zu but its table block holds only %zu entries", via == 1 ? "copy" : "reloaded encoding", kind_names[kind], n0, prev_cap, rc0); }
   for (size_t i = 0; i < n; i++, done++) {
     bool ok;
     size_t capn, sz;
-    if (kind == K_IARR) { ok = cbor_array_push(c, x); capn = cbor_array_allocated(c); sz = cbor_array_size(c); }
+    if (kind == K_IARR) { ok = via == 3 ? cbor_array_set(c, cbor_array_size(c), x) : cbor_array_push(c, x); capn = cbor_array_allocated(c); sz = cbor_array_size(c); }
     else if (kind == K_IMAP) { ok = cbor_map_add(c, (struct cbor_pair){.key = x, .value = x}); capn = cbor_map_allocated(c); sz = cbor_map_size(c); }
     else { ok = kind == K_IBS ? cbor_bytestring_add_chunk(c, x) : cbor_string_add_chunk(c, x); capn = ((struct cbor_indefinite_string_data*)c->data)->chunk_capacity; sz = kind == K_IBS ? cbor_bytestring_chunk_count(c) : cbor_string_chunk_count(c); }
     if (!ok) { vh_violation("indefinite-container-refused", "insertion %zu into an indefinite %s was refused although no allocation was refused", i, kind_names[kind]); break; }
@@ -1004,6 +1004,7 @@ static void setup(void) {
   ALLOC = A_TRACK;
   if (P == 13) {
     if (strstr(O.stage, "tagged")) ALLOC = A_TAGGED;
+    else if (strstr(O.stage, "bump")) { ALLOC = A_ARENA; AR_bump_mode = true; }
     else if (strstr(O.stage, "arena")) ALLOC = A_ARENA;
     else if (strstr(O.stage, "count")) ALLOC = A_TRACK;
     else vh_die("driver hist: C13 stage must name tagged, arena or count");
@@ -1265,6 +1266,9 @@ static void hist_run(void) {
       { static const size_t n0s[] = {0, 1, 3, 5, 8, 9, 100, 255, 256, 257, 300, 511, 512, 513, 600, 1023, 1024, 1025, 1500, 2048, 3000, 4097, 5000, 70000};
         for (int k = 0; k < 4; k++) for (size_t q = 0; q < sizeof n0s / sizeof n0s[0]; q++) for (int via = 1; via <= 2; via++)
           if (unit++ % O.nshards == O.shard) c12_growth_via(kinds[k], n0s[q] < 1000 ? 3 * n0s[q] + 40 : 2500, via, n0s[q]); }
+      /* appends through cbor_array_set(a, size, x) grow like pushes */
+      { static const size_t ns[] = {3, 40, 100, 1000, 4096, 70000};
+        for (size_t q = 0; q < sizeof ns / sizeof ns[0]; q++) if (unit++ % O.nshards == O.shard) c12_growth_via(K_IARR, ns[q], 3, 0); }
       /* long runs: millions of members in one container (tables of tens of MiB) */
       for (int k = 0; k < 4; k++) {
         if (unit++ % O.nshards == O.shard) c12_growth(kinds[k], (size_t)3 << 19);
